@@ -318,12 +318,40 @@ func e2e(id string, seed uint64) runner.Result {
 	for k, v := range shared {
 		sharedCopy[k] = v
 	}
+	// a long-lived base context that already carries metadata; calls are derived from it
+	baseMD := genMap(r)
+	for len(baseMD) == 0 {
+		baseMD = genMap(r)
+	}
+	baseCtx := context.Background()
+	for k, v := range baseMD {
+		baseCtx = drpcmetadata.Add(baseCtx, k, v)
+	}
+	useBase := r.Intn(2) == 0
 	for i := 0; i < ncalls; i++ {
 		tag := uint64(i + 1)
 		ctx := context.Background()
 		var md map[string]string
 		style := "none"
-		if r.Intn(3) != 0 {
+		if useBase && r.Intn(2) == 0 {
+			// derived from the shared base: the base's pairs plus, sometimes, pairs of its own
+			style = "base"
+			ctx = baseCtx
+			md = map[string]string{}
+			for k, v := range baseMD {
+				md[k] = v
+			}
+			if r.Intn(2) == 0 {
+				style = "base+Add"
+				for k, v := range genMap(r) {
+					ctx = drpcmetadata.Add(ctx, k, v)
+					md[k] = v
+				}
+				k := fmt.Sprintf("call-%d", tag)
+				ctx = drpcmetadata.Add(ctx, k, "own")
+				md[k] = "own"
+			}
+		} else if r.Intn(3) != 0 {
 			md = genMap(r)
 			switch r.Intn(4) {
 			case 0:
